@@ -193,7 +193,7 @@ def run(ctx, res):
                                           'relation': 'Readers.decode_line = parse_request + read_*'})
         exp = [sym('req'), rid, sym(meth), [sym('ok'), wire.expected_request(q)]]
         if impl != exp:
-            res.oracle_violations.append({'case': {'method': meth, 'id': rid, 'line': line, 'request': repr(q)[:600]},
+            res.oracle_violations.append({'case': {'method': meth, 'id': rid, 'line': line, 'request': repr(q)[:600], 'expected': sx.dumps(exp)},
                                           'detail': 'decoded %s, expected %s' % (sx.dumps(impl)[:800], sx.dumps(exp)[:800]),
                                           'key': {'method': meth, 'stage': 'decode'}})
             continue
@@ -232,6 +232,7 @@ def search(ctx, res):
 
 
 def replay(ctx, data):
+    """re-decode the recorded line with the real parse_request + read_* and compare with the recorded expected structure"""
     from lightstreamer_adapter import protocol
     case = data['case']
     line = case['line']
@@ -240,5 +241,13 @@ def replay(ctx, data):
     elif isinstance(line, str):
         line = line.encode('latin-1')
     pr = protocol.parse_request(line.decode('ascii'))
+    if pr is None:
+        return True, 'parse_request returns None'
     kind, val = wire.impl_read(pr['method'], pr['data'])
-    return False, 'decoded %s %s (manual comparison: %s)' % (kind, sx.dumps(val) if kind == 'ok' else val, data.get('detail'))
+    body = [sym('ok'), val] if kind == 'ok' else [sym('err'), val] if kind == 'err' else [sym('other'), val.encode()]
+    impl = sx.dumps([sym('req'), pr['id'].encode(), sym(pr['method']), body])
+    if 'expected' in case:
+        return impl != case['expected'], 'decoded %s; expected %s' % (impl[:600], case['expected'][:600])
+    if data.get('key', {}).get('stage') == 'delivery':
+        return False, 'delivery case: re-run the check (decoded %s)' % impl[:300]
+    return kind != 'ok', 'decoded %s' % impl[:600]
